@@ -162,7 +162,9 @@ def _truthy_def(v):
 
 
 def dict_has(d, key):
-    return z3.Select(Val.dhas(d), key)
+    # a key can only be present in a non-empty dict: the conjunct keeps `len` and membership consistent even
+    # where the finite-support ties of pyvc.solve cannot see the term (inside macro applications)
+    return z3.And(z3.Select(Val.dhas(d), key), Val.dlen(d) >= 1)
 
 
 def dict_get(d, key):
